@@ -187,6 +187,7 @@ def _history(args):
     steps = []
     uids = []
     skipped = 0
+    wrapkey = None
     try:
         for i in range(nsteps):
             D.CLOCK.now += r.choice([1, 2, 3])
@@ -252,6 +253,23 @@ def _history(args):
                     steps.append({"kind": "getfail", "uid": u, "why": "names: " + str(e)[:100], "ver": ver[0] * 10 + ver[1]})
                     continue
                 steps.append({"kind": "names", "uid": u, "ver": ver[0] * 10 + ver[1], "names": list(names)})
+            elif k < 0.935:
+                # a reader asks for the object WRAPPED, in a batch whose later item commits: what is stored must not change
+                # (the wrapped copy is the answer to that Get only); recorded as a no-op, later reads are checked as ever
+                if wrapkey is None:
+                    wk = drv.request(D.one("Register", {"otype": "SymmetricKey", "attrs": [
+                        {"name": "Cryptographic Usage Mask", "v": ["WRAP_KEY", "UNWRAP_KEY", "ENCRYPT", "DECRYPT"]}],
+                        "obj": {"type": "SymmetricKey", "val": intern.tok(bytes(range(16))), "alg": "AES", "len": 128, "fmt": "RAW"}}, ver=(1, 4)))
+                    wrapkey = wk["items"][0]["pl"]["uid"]
+                    drv.request(D.one("Activate", {"uid": wrapkey}))
+                u = r.choice(uids)
+                pre = drv.request(D.one("Create", {"otype": "SymmetricKey", "attrs": [
+                    {"name": "Cryptographic Algorithm", "v": "AES"}, {"name": "Cryptographic Length", "v": 128},
+                    {"name": "Cryptographic Usage Mask", "v": ["ENCRYPT"]}]}))["items"][0]["pl"]["uid"]
+                b = drv.request({"user": "alice", "groups": None, "ver": [1, 2], "opt": "Continue", "items": [
+                    {"op": "Get", "bid": "1", "p": {"uid": u, "wrap": {"kuid": wrapkey, "mode": "NIST_KEY_WRAP"}}},
+                    {"op": "Activate", "bid": "2", "p": {"uid": pre}}]})
+                steps.append({"kind": "noop", "why": "wrapped Get + commit in one batch: %s" % [i["status"] for i in b["items"]]})
             elif k < 0.96:
                 u = r.choice(uids)
                 try:
